@@ -220,6 +220,8 @@ def rule_c(prog, rep):
         rep.violation('C12.c', 'run_in_follower_mode', f.loc, '; '.join(sorted(set(problems))), key='C12.c/follower/' + '|'.join(sorted(set(problems))))
     else:
         rep.ok('C12.c', 'run_in_follower_mode', f.loc, 'sync -> unlock -> flush; periodic flush arm; shutdown on exit')
+    from .c10 import _lock_latch
+    _lock_latch(prog, rep, 'C12.c')
     s = crate.fn('shutdown')
     sb = Bindings(crate, s)
 
